@@ -10,7 +10,7 @@
 (* directory entry, no "..") the kernel walk, realpath and DryRunRenamer's abspath key all yield    *)
 (* input directory ++ parts, so both renamers take the same branch, and [simulation_step] (DrySim)  *)
 (* re-establishes the relation after a successful rename.                                           *)
-From Tempren Require Import Base.Str Py.PathLib FS.Model FS.Lemmas FS.PlainPaths Pipe.Pipeline Pipe.DestParent Pipe.DrySim.
+From Tempren Require Import Base.Str Py.PathLib FS.Model FS.Lemmas FS.PlainPaths Pipe.Pipeline Pipe.DestParent Pipe.BacklogVerify Pipe.DrySim.
 Open Scope N_scope.
 
 (* ---------- the statement's vocabulary --------------------------------------------------------- *)
@@ -592,11 +592,64 @@ Proof.
 Qed.
 
 (* ---------- conflict resolution and the two passes ------------------------------------------------------ *)
+(* the containment tests run again before a deferred entry is retried (F38), on any tree on which the entry is plain *)
+Lemma verify_yes_dd x m f r np pre :
+  WF x -> generate m f r = inl np -> (match m with MPath => false | _ => true end) = true ->
+  plain_rel x (pf_dir f) (pf_rel f) -> dd_rel x (pf_dir f) np pre ->
+  is_prefix_path (pf_dir f) (removelast (pf_dir f ++ pre)) = true ->
+  backlog_verify fixed x (pf_dir f) (pf_rel f) np = None.
+Proof.
+  intros Wx G Hm Ps Pdd IP. apply backlog_verify_yes.
+  - rewrite (contained_dd x f np _ Wx Pdd), IP. reflexivity.
+  - exact (dest_parent_test_generated fixed _ x f _ np G Hm (source_contained_rel x f Wx Ps)).
+  - exact (parents_contained_dd x f np _ Wx Pdd).
+  - exact (source_contained_rel x f Wx Ps).
+Qed.
+
+Lemma verify_yes_plain x m f r np :
+  WF x -> generate m f r = inl np -> (match m with MPath => false | _ => true end) = true ->
+  plain_rel x (pf_dir f) (pf_rel f) -> plain_rel x (pf_dir f) np ->
+  not_link (lookup x (pf_dir f ++ pp_parts np)) ->
+  is_prefix_path (pf_dir f) (pf_dir f ++ pp_parts np) = true ->
+  backlog_verify fixed x (pf_dir f) (pf_rel f) np = None.
+Proof.
+  intros Wx G Hm Ps Pd NLd IP. apply backlog_verify_yes.
+  - rewrite (contained_rel x f np Wx Pd NLd), IP. reflexivity.
+  - exact (dest_parent_test_generated fixed _ x f _ np G Hm (source_contained_rel x f Wx Ps)).
+  - exact (parents_contained_rel x f np Wx Pd).
+  - exact (source_contained_rel x f Wx Ps).
+Qed.
+
+(* the containment tests run again before a deferred entry is retried (F38) say yes on every tree that has
+   the skeleton of the initial one: on the initial tree itself (dry run) and on the current one (real run) *)
+Definition retest_ok (b : backlog_entry) : Prop :=
+  forall x, WF x -> (forall k, skel x k = skel s0 k) ->
+  backlog_verify fixed x (fst (fst b)) (snd (fst b)) (snd b) = None.
+
 Definition plain_entry (b : backlog_entry) : Prop :=
   let d := fst (fst b) in let src := snd (fst b) in let dst := snd b in
   lookup s0 d = Some NDir /\ plain_rel s0 d src /\ skel s0 (d ++ pp_parts src) = None /\
   ((plain_rel s0 d dst /\ (OVR -> skel s0 (d ++ pp_parts dst) = None /\ pp_parts src <> pp_parts dst)) \/
-   ((exists pre, dd_rel s0 d dst pre) /\ ~ OVR)).
+   ((exists pre, dd_rel s0 d dst pre) /\ ~ OVR)) /\
+  retest_ok b.
+
+Lemma retest_ok_dd f r np pre :
+  generate MName f r = inl np -> plain_rel s0 (pf_dir f) (pf_rel f) -> dd_rel s0 (pf_dir f) np pre ->
+  is_prefix_path (pf_dir f) (removelast (pf_dir f ++ pre)) = true -> retest_ok (pf_dir f, pf_rel f, np).
+Proof.
+  intros G Ps Pdd IP x Wx Sx. cbn [fst snd].
+  exact (verify_yes_dd x MName f r np pre Wx G eq_refl (plain_rel_transfer _ _ _ _ Sx Ps) (dd_rel_transfer _ _ _ _ _ Sx Pdd) IP).
+Qed.
+
+Lemma retest_ok_plain f r np :
+  generate MName f r = inl np -> plain_rel s0 (pf_dir f) (pf_rel f) -> plain_rel s0 (pf_dir f) np ->
+  not_link (lookup s0 (pf_dir f ++ pp_parts np)) ->
+  is_prefix_path (pf_dir f) (pf_dir f ++ pp_parts np) = true -> retest_ok (pf_dir f, pf_rel f, np).
+Proof.
+  intros G Ps Pd NLd IP x Wx Sx. cbn [fst snd].
+  apply (verify_yes_plain x MName f r np Wx G eq_refl (plain_rel_transfer _ _ _ _ Sx Ps) (plain_rel_transfer _ _ _ _ Sx Pd)); [|exact IP].
+  intros i tg K. apply skel_link in K. rewrite Sx in K. apply skel_link in K. exact (NLd i tg K).
+Qed.
 
 Lemma plain_rel_single d src q :
   lookup s0 d = Some NDir -> plain_rel s0 d src -> q <> dotdot ->
@@ -615,7 +668,7 @@ Lemma sim_resolve_conflict wd wr d src dst wd' ed wr' er :
   resolve_conflict cD wd d src dst = (wd', ed) -> resolve_conflict cR wr d src dst = (wr', er) ->
   ed = er /\ Sim wd' wr'.
 Proof.
-  intros S PE. unfold plain_entry in PE. cbn [fst snd] in PE. destruct PE as [Ld [Ps [Hsk Hdst]]].
+  intros S PE. unfold plain_entry in PE. cbn [fst snd] in PE. destruct PE as [Ld [Ps [Hsk [Hdst Hrt]]]].
   (* overriding is only possible onto a plain destination *)
   assert (Ovr : OVR -> forall wd0 wr0 wd1 e1 wr1 e2, Sim wd0 wr0 ->
             renamer cD wd0 d src dst true = (wd1, e1) -> renamer cR wr0 d src dst true = (wr1, e2) ->
@@ -663,9 +716,12 @@ Proof.
   revert wd wr cwd. induction bl as [|[[d src] dst] rest IH]; intros wd wr cwd PB S; cbn [second_pass].
   - intros Ed Er; inversion Ed; inversion Er; subst. split; [reflexivity | assumption].
   - inversion PB as [|? ? PE PB']; subst. pose proof PE as PE0.
-    unfold plain_entry in PE. cbn [fst snd] in PE. destruct PE as [Ld [Ps [Hsk Hdst]]].
+    unfold plain_entry in PE. cbn [fst snd] in PE. destruct PE as [Ld [Ps [Hsk [Hdst Hrt]]]].
     cbn [cD cR c_var fixed v_backlog_chdir].
     destruct (chdir_sim _ _ _ _ S Ld Ps) as [-> ->].
+    unfold retest_ok in Hrt. cbn [fst snd] in Hrt.
+    rewrite (sim_fs _ _ S).
+    rewrite (Hrt s0 W0 (fun k => eq_refl)), (Hrt (w_fs wr) (sim_wf _ _ S) (sim_skel _ _ S)).
     destruct (renamer cD wd d src dst false) as [wd1 ed1] eqn:Rd.
     destruct (renamer cR wr d src dst false) as [wr1 er1] eqn:Rr.
     assert (R : ed1 = er1 /\ Sim wd1 wr1).
@@ -774,8 +830,9 @@ Proof.
       assert (Pdd : dd_rel s0 (pf_dir f) np (removelast (pp_parts (pf_rel f)))) by (rewrite Enp; apply dd_rel_dest; assumption).
       pose proof (dd_rel_transfer _ _ _ _ _ (sim_skel _ _ S) Pdd) as Pdd'.
       rewrite (contained_dd s0 f np _ W0 Pdd), (contained_dd (w_fs wr) f np _ (sim_wf _ _ S) Pdd').
-      destruct (is_prefix_path (pf_dir f) (removelast (pf_dir f ++ removelast (pp_parts (pf_rel f))))).
+      destruct (is_prefix_path (pf_dir f) (removelast (pf_dir f ++ removelast (pp_parts (pf_rel f))))) eqn:IP.
       2:{ intros Ed Er; inversion Ed; inversion Er; subst. fp_done. }
+      assert (RT : retest_ok (pf_dir f, pf_rel f, np)) by exact (retest_ok_dd f _ np _ G Ps Pdd IP).
       rewrite (dest_parent_test_generated fixed _ s0 f _ np G eq_refl (source_contained_rel s0 f W0 Ps)),
               (dest_parent_test_generated fixed _ (w_fs wr) f _ np G eq_refl (source_contained_rel (w_fs wr) f (sim_wf _ _ S) (plain_rel_transfer _ _ _ _ (sim_skel _ _ S) Ps))).
       rewrite (parents_contained_dd s0 f np _ W0 Pdd), (parents_contained_dd (w_fs wr) f np _ (sim_wf _ _ S) Pdd').
@@ -784,7 +841,7 @@ Proof.
       destruct (sim_renamer_dd wd wr (pf_dir f) (pf_rel f) np _ S Pdd) as [-> ->].
       cbn [is_file_exists].
       apply IH; try assumption. constructor; [|assumption]. unfold plain_entry. cbn [fst snd].
-      split; [|split; [|split]]; try assumption.
+      split; [|split; [|split; [|split]]]; try assumption.
       right. split; [exists (removelast (pp_parts (pf_rel f))); assumption | assumption].
     + assert (Ht : t <> dotdot) by (intros E; apply name_eqb_eq in E; congruence).
       assert (Pd : plain_rel s0 (pf_dir f) np) by (rewrite Enp; apply plain_rel_dest; assumption).
@@ -795,8 +852,9 @@ Proof.
       assert (NLr : not_link (lookup (w_fs wr) (pf_dir f ++ pp_parts np))).
       { intros i tg K. apply skel_link in K. rewrite (sim_skel _ _ S) in K. apply skel_link in K. exact (NLd i tg K). }
       rewrite (contained_rel (w_fs wr) f np (sim_wf _ _ S) Pd' NLr).
-      destruct (is_prefix_path (pf_dir f) (pf_dir f ++ pp_parts np)).
+      destruct (is_prefix_path (pf_dir f) (pf_dir f ++ pp_parts np)) eqn:IP.
       2:{ intros Ed Er; inversion Ed; inversion Er; subst. fp_done. }
+      assert (RT : retest_ok (pf_dir f, pf_rel f, np)) by exact (retest_ok_plain f _ np G Ps Pd NLd IP).
       rewrite (dest_parent_test_generated fixed _ s0 f _ np G eq_refl (source_contained_rel s0 f W0 Ps)),
               (dest_parent_test_generated fixed _ (w_fs wr) f _ np G eq_refl (source_contained_rel (w_fs wr) f (sim_wf _ _ S) (plain_rel_transfer _ _ _ _ (sim_skel _ _ S) Ps))).
       rewrite (parents_contained_rel s0 f np W0 Pd), (parents_contained_rel (w_fs wr) f np (sim_wf _ _ S) Pd').
@@ -809,7 +867,7 @@ Proof.
       destruct ed1 as [e|]; [|apply IH; assumption].
       destruct (is_file_exists e).
       * apply IH; try assumption. constructor; [|assumption]. unfold plain_entry. cbn [fst snd].
-        split; [|split; [|split]]; try assumption.
+        split; [|split; [|split; [|split]]]; try assumption.
         left. split; [assumption|]. intros O. split.
         -- pose proof (DR O) as K. inversion K as [|? ? Kf K']. cbn [fst snd] in Kf. rewrite Enp. exact Kf.
         -- intros E. apply (ppath_neq_parts np (pf_rel f)); [rewrite Enp; reflexivity | assumption | symmetry; assumption].
